@@ -209,6 +209,16 @@ Proof.
   split; [|reflexivity]. cbn [same_call]. intros [_ [_ H]]. discriminate H.
 Qed.
 
+Lemma force_change_reaches_complete_empty ti rest f :
+  forward (CTaskIsComplete ti (data_of [] rest) f) = PComplete (ti_in ti) [] f.
+Proof. exact (forward_is_complete ti [] rest f). Qed.
+
+Lemma forward_empty_noforce_conflates : exists a b, ~ same_call a b /\ forward_empty_noforce a = forward_empty_noforce b.
+Proof.
+  exists (CTaskIsComplete (mkCTi 1 2) (data_of [] []) true), (CTaskIsComplete (mkCTi 1 2) (data_of [] []) false).
+  split; [|reflexivity]. cbn [same_call]. intros [_ [_ H]]. discriminate H.
+Qed.
+
 (* ------------------------------------------------------------------ backward: what the C client is shown *)
 
 Lemma backward_lookup_rule e key : option_map view (backward e (BLookupRule key)) = Some (VLookupRule e key).
